@@ -205,6 +205,9 @@ def gen_events(rng):
                                     "memory_full_info", "status", "exe", "gids", "username", "nice"], rng.randrange(1, 6))
             elif k < 0.8:
                 attrs = [rng.choice(["name", "uids"]), rng.choice(["bogus", "kill", "wait", "oneshot", "", "children", "_proc"])]
+                if rng.random() < 0.4:
+                    # several unknown "names" at once, not all of them strings (nothing says they can be ordered)
+                    attrs += rng.sample([None, 1, 2.5, True, "nmae", "pidd", 0], rng.randrange(1, 4))
             else:
                 attrs = rng.choice([5, "name", 3.5, "NONLIST", "", 0, 0.0, False, "EMPTYDICT", "EMPTYRANGE", "EMPTYBYTES"])
             ev.append(["as_dict", attrs, rng.choice([None, "AD", -1])])
